@@ -255,7 +255,7 @@ func c18Run(c *core.Ctx) {
 }
 
 func c18Replay(c *core.Ctx, payload json.RawMessage) {
-	if c18LongReplay(c, payload) {
+	if c18LongReplay(c, payload) || c18HistReplay(c, payload) {
 		return
 	}
 	var p c18Payload
